@@ -3,7 +3,7 @@ from . import modecommon, C03
 from ..facts import Module
 
 LEVEL = "other"
-RM = {"SMALLIO": "R-C08-SMALL", "RT": "R-C08-PASS", "LEN": "R-C08-LEN", "ADVANCE": "R-C08-LOCKSTEP", "TAGPOS": "R-C08-END", "INPLACE": "R-C08-INPLACE", "INRANGE": "R-C08-READS"}
+RM = {"SMALLIO": "R-C08-SMALL", "SMALLMEM": "R-C08-SMALL", "RT": "R-C08-PASS", "LEN": "R-C08-LEN", "ADVANCE": "R-C08-LOCKSTEP", "TAGPOS": "R-C08-END", "INPLACE": "R-C08-INPLACE", "INRANGE": "R-C08-READS"}
 PAIR = {"MODE": "R-C08-PASS", "PREFIX": "R-C08-PASS1", "NONCE2": "R-C08-NONCE", "SETUPFN": "R-C08-SETUPFN", "SETUPSENS": "R-C08-SETUPFN"}
 
 
@@ -26,6 +26,8 @@ def run(ck, build):
     ck.rule("R-C08-INPLACE", "load-before-store per byte in the keystream pass; the tag bytes are copied into the local nonce before the first plaintext store")
     ck.rule("R-C08-GUARD", "inputs shorter than 8 bytes are refused before any access; every other path returns check_tag's verdict (C03's rules on the three SIV decrypt functions)")
     ck.not_decided += ["values; that the computed tag depends on every input bit (cipher property)", "alignment independence is C06's"]
+    if modecommon.nostate_rule(ck, build, "R-C08-NOSTATE", ("siv",), "the six SIV entry points"):
+        return
     mod, fns, n = modecommon.run_mode(ck, build, ("siv",), RM, helper_fns=False, floor_obl=100)
     try:
         npair = modecommon.run_pairs(ck, mod, ("siv",), PAIR)
